@@ -49,6 +49,7 @@ meta = {}
 try: meta = json.load(open(os.path.join(seed, "meta.json")))
 except Exception as e: meta = {"note": f"agent meta.json unreadable: {e}"}
 meta["property"] = prop
+meta["base_commit"] = subprocess.run("git -C /repo rev-parse --short HEAD", shell=True, stdout=subprocess.PIPE, text=True).stdout.strip()
 meta["confirmation"] = res
 meta["confirmation_cmds"] = ["cargo test --workspace --no-fail-fast --offline (unpatched + demo: all pass)", "git apply patch.diff; same command (67 pass, demo fails)", "patched without demo: 67 pass"]
 # 3. run the checks against it in /repo
